@@ -1,4 +1,5 @@
 import ACModel.Driver.GroupedList
+import ACModel.Driver.Discretizer
 /-
   acdriver: JSON-lines driver around the executable model and the specification predicates.
   One request per line on stdin, one response per line on stdout.
@@ -10,6 +11,10 @@ def dispatch (j : Json) : R Json := do
   | "ping" => pure (obj [("pong", Json.bool true)])
   | "gl.run" => DriverGL.run j
   | "judge.C13" => DriverGL.judge j
+  | "disc.labels" => DriverDisc.labels j
+  | "disc.transform" => DriverDisc.transform j
+  | "judge.C04" => DriverDisc.judgeC04 j
+  | "judge.C05" => DriverDisc.judgeC05 j
   | o => throw s!"unknown request {o}"
 
 def handleLine (line : String) : String :=
